@@ -105,6 +105,12 @@ func CheckTokenGame(pfx string, prog *Program, hist []simlog.Ev) *TokenGameResul
 			if e := m.Answer(ev.A, r, objs); e != "" {
 				vl.add(pfx+"/harness", "step %d: %s", ev.Step, e)
 			}
+		case "t:leave":
+			if n := findNodeIn(prog.Defs, ev.A); n != nil && n.Kind == "catch" && n.Relaxed {
+				if !m.ReleaseCatch(ev.A) {
+					vl.add(pfx+"/catch-left-without-token", "step %d: catch event %s continued although the token game has no token waiting there", ev.Step, ev.A)
+				}
+			}
 		case "ev":
 			// an event handed to the instance at a moment when the engine was quiescent
 			m.Deliver(ev.A, ev.B)
